@@ -16,7 +16,7 @@ PROPS = {
         "assumptions": CODEC_ASSUME + ["the registry contains exactly the versions registered by importing go/v1 and go/v2"],
     },
     "C09": {
-        "kind": "codec", "modules": ["OAP.Props.C09"], "gens": ["C09"],
+        "kind": "codec", "search_thorough": False, "modules": ["OAP.Props.C09"], "gens": ["C09"],
         "rule": "marshalString on the boundary lengths + 500 random lengths (thorough: EVERY length 0..32768); unmarshalStringLength on ALL 2^16 "
                 "two-byte prefixes and all one-byte inputs; UnmarshalValues on canonical encodings of generated maps, every truncation point of them, "
                 "two-byte prefix classes with enough / not enough payload, dangling keys, random and mutated blocks; MarshalValues on generated maps "
@@ -48,7 +48,7 @@ PROPS = {
         "assumptions": CODEC_ASSUME + ["OAP/Spec/Layout.lean is written from the layout quoted in the property (the online protocol document is not reachable offline)"],
     },
     "C03": {
-        "kind": "codec", "modules": ["OAP.Props.C03"], "gens": ["C03"],
+        "kind": "codec", "search_thorough": False, "modules": ["OAP.Props.C03"], "gens": ["C03"],
         "rule": "(a) random operation sequences (write, read, peek, retrieve, peekUintN, peekAll; capacities 1..16, NewWithData) on the real ring buffer "
                 "vs the Lean ring model, comparing returned bytes and the observable geometry (length, capacity, emptiness, lengths of PeekAll's two "
                 "slices) after every operation, with a shadow byte queue as the direct statement of the property; (b) sequences of 1-4 valid frames "
@@ -245,12 +245,20 @@ def run_codec_prop(prop, cfg, tier, seed, replay):
     if mism:
         problems.append(f"correspondence: model and code disagree on {len(mism)}+ operation(s), first: {mism[0]['op'][:200]} code={mism[0]['code'][:120]} model={mism[0]['model'][:120]}")
     # search: when something broke and no failing input is known yet, widen the exploration of the real code
+    # (bounded: three further quick seeds, then ONE thorough batch unless the property's thorough batch takes many minutes — a broken
+    # obligation is reported either way, the search only tries to attach a failing input to it)
     if problems and not fails and tier == "quick" and ok:
+        plan = [("quick", seed + 101), ("quick", seed + 202), ("quick", seed + 303)]
+        if cfg.get("search_thorough", True):
+            plan.append(("thorough", seed))
         for g in cfg["gens"]:
-            for s in (seed, seed + 1000003):
-                r = L.run_codec(prop, "thorough", s, g)
-                runs.append((g, "thorough", r))
-                fails += [dict(f, gen=g, tier="thorough", seed=s) for f in r["fails"]]
+            for t2, s in plan:
+                r = L.run_codec(prop, t2, s, g)
+                runs.append((g, t2, r))
+                fails += [dict(f, gen=g, tier=t2, seed=s) for f in r["fails"]]
+                if not r["fails"] and "error" not in r:
+                    import shutil as _sh2
+                    _sh2.rmtree(r["dir"], ignore_errors=True)
                 if fails:
                     break
             if fails:
